@@ -12,6 +12,10 @@ Accepted subset (anything else raises TranslationError, which the check reports 
                         (op in + - * /); `return vector_expr, scalar_expr`
   expressions         : names, int/float literals (exact decimals), + - * / with scalar/vector typing,
                         unary minus, `f(time, state)`, `updateX(state, derivative, step)`
+  DESolver._getdXdt   : additionally scalar conditional expressions `a if x < y else b` (one comparison),
+                        the builtins max / min on two scalars (Python's tie rule), and reads of the scalar
+                        attributes self._dtmin / self._dtmax (absolute bounds in force) and self.dtmin /
+                        self.dtmax (the constructor's fractions of the span) - four different binders
   DESolver._updateX   : the in-place hook `self._correctdXdt(dt, self._X0, d)` is accepted in this exact form and
                         NOT modelled: the generated text is about models that do not correct derivatives
   numpy aliasing      : `a = b` between vector names binds both names to ONE array; an in-place
@@ -34,8 +38,11 @@ class TranslationError(Exception):
 ITER_SIG = ['f', 't', 'X_old', 'updateX']
 COMMON_BINDERS = '(O : Ops) (V : Type) (vadd : V -> V -> V) (smul : T O -> V -> V)'
 ITER_BINDERS = COMMON_BINDERS + ' (f : T O -> V -> V) (getdt : T O -> V -> T O) (updateX : V -> V -> T O -> V)'
-SOLVER_BINDERS = COMMON_BINDERS + ' (F : T O -> V -> V) (userdt : V -> T O) (dtmin dtmax : T O)'
-SOLVER_ARGS = 'O V vadd smul F userdt dtmin dtmax'
+SOLVER_BINDERS = COMMON_BINDERS + ' (F : T O -> V -> V) (userdt : V -> T O) (dtminfrac dtmaxfrac dtmin dtmax : T O)'
+SOLVER_ARGS = 'O V vadd smul F userdt dtminfrac dtmaxfrac dtmin dtmax'
+# scalar attributes of DESolver that _getdXdt may read: the step bounds in force (_dtmin, _dtmax: absolute, set by
+# solve) and the constructor's fractions of the simulated span (dtmin, dtmax) - different numbers
+SOLVER_ATTRS = {'_dtmin': 'dtmin', '_dtmax': 'dtmax', 'dtmin': 'dtminfrac', 'dtmax': 'dtmaxfrac'}
 REQUIRED = ['ExplicitEulerIterator', 'RK4Iterator']
 
 
@@ -67,6 +74,7 @@ class _Fn:
         self.calls = callables     # name -> handler(args, node) -> (text, type)
         self.reserved = set(callables)
         self.fcalls = []     # (source text of time arg, source text of state arg) per derivative call
+        self.attrs = {}      # 'attr' of self readable as a scalar -> Gallina name
         for p, (g, t) in params.items():
             self.env[p] = g
             self.ty[p] = t
@@ -109,6 +117,36 @@ class _Fn:
             if op == 'Div' and ta == 'V' and tb == 'S':
                 return '(smul (dvd O (one O) %s) %s)' % (b, a), 'V'
             raise TranslationError('unsupported operation %s on %s and %s' % (op, ta, tb), e, self.name)
+        if isinstance(e, ast.Attribute) and isinstance(e.value, ast.Name) and e.value.id == 'self' and e.attr in self.attrs:
+            return self.attrs[e.attr], 'S'
+        if isinstance(e, ast.IfExp):
+            # a if cond else b  on scalars, cond a single comparison of scalars
+            c = e.test
+            if not (isinstance(c, ast.Compare) and len(c.ops) == 1 and len(c.comparators) == 1):
+                raise TranslationError('unsupported condition', e, self.name)
+            l, tl = self.tr(c.left)
+            r, tr_ = self.tr(c.comparators[0])
+            a, ta = self.tr(e.body)
+            b, tb = self.tr(e.orelse)
+            if (tl, tr_, ta, tb) != ('S', 'S', 'S', 'S'):
+                raise TranslationError('conditional expressions are supported on scalars only', e, self.name)
+            op = type(c.ops[0]).__name__
+            cond = {'Gt': '(ltb O %s %s)' % (r, l), 'Lt': '(ltb O %s %s)' % (l, r),
+                    'GtE': '(leb O %s %s)' % (r, l), 'LtE': '(leb O %s %s)' % (l, r)}.get(op)
+            if cond is None:
+                raise TranslationError('unsupported comparison %s' % op, e, self.name)
+            return '(if %s then %s else %s)' % (cond, a, b), 'S'
+        if isinstance(e, ast.Call) and isinstance(e.func, ast.Name) and e.func.id in ('max', 'min') and self.attrs:
+            # Python's builtins on two scalars: max(a, b) is b only if b > a, min(a, b) is b only if b < a
+            if e.keywords or len(e.args) != 2:
+                raise TranslationError('max / min are supported with two positional arguments', e, self.name)
+            a, ta = self.tr(e.args[0])
+            b, tb = self.tr(e.args[1])
+            if (ta, tb) != ('S', 'S'):
+                raise TranslationError('max / min are supported on scalars only', e, self.name)
+            if e.func.id == 'max':
+                return '(if (ltb O %s %s) then %s else %s)' % (a, b, b, a), 'S'
+            return '(if (ltb O %s %s) then %s else %s)' % (b, a, b, a), 'S'
         if isinstance(e, ast.Call):
             if e.keywords:
                 raise TranslationError('keyword arguments are not supported', e, self.name)
@@ -349,40 +387,6 @@ def _call_model_dt(fn, e):
     return '(userdt %s)' % a, 'S'
 
 
-def _clamp_stmt(fn, st):
-    """dt = dt if dt > self._dtmin else self._dtmin   (and the < / _dtmax twin)"""
-    if not (isinstance(st, ast.Assign) and len(st.targets) == 1 and isinstance(st.targets[0], ast.Name)
-            and isinstance(st.value, ast.IfExp)):
-        return False
-    n = st.targets[0].id
-    ie = st.value
-    c = ie.test
-    if not (isinstance(c, ast.Compare) and len(c.ops) == 1 and len(c.comparators) == 1):
-        raise TranslationError('unsupported condition', st, fn.name)
-
-    def sc(e):
-        if isinstance(e, ast.Attribute) and isinstance(e.value, ast.Name) and e.value.id == 'self' and e.attr in ('_dtmin', '_dtmax'):
-            return e.attr[1:]
-        a, ta = fn.tr(e)
-        if ta != 'S':
-            raise TranslationError('scalar expected', e, fn.name)
-        return a
-    l, r = sc(c.left), sc(c.comparators[0])
-    op = type(c.ops[0]).__name__
-    if op == 'Gt':
-        cond = '(ltb O %s %s)' % (r, l)
-    elif op == 'Lt':
-        cond = '(ltb O %s %s)' % (l, r)
-    elif op == 'GtE':
-        cond = '(leb O %s %s)' % (r, l)
-    elif op == 'LtE':
-        cond = '(leb O %s %s)' % (l, r)
-    else:
-        raise TranslationError('unsupported comparison %s' % op, st, fn.name)
-    fn.bind(n, '(if %s then %s else %s)' % (cond, sc(ie.body), sc(ie.orelse)), 'S', st)
-    return True
-
-
 def translate_solver(src):
     try:
         mod = ast.parse(src)
@@ -408,6 +412,8 @@ def translate_solver(src):
 
     def run(stmts, want):
         fn = _Fn('_getdXdt', {'t': ('t', 'S'), 'x': ('x', 'V')}, calls)
+        fn.attrs = dict(SOLVER_ATTRS)
+        fn.reserved |= {'max', 'min'}
         for st in stmts:
             if isinstance(st, ast.Return):
                 v = st.value
@@ -423,8 +429,6 @@ def translate_solver(src):
                 if tp != 'V':
                     raise TranslationError('expected a vector', st, '_getdXdt')
                 return fn, (p,)
-            if _clamp_stmt(fn, st):
-                continue
             if isinstance(st, ast.Assign):
                 fn.assign(st)
             else:
@@ -516,7 +520,8 @@ HEADER = '''(* GENERATED by harness/c06_translate.py - do not edit.
    Every definition takes the same explicit binders (used or not), so that its arity does not
    depend on its body:
      iterators : O V vadd smul  f getdt updateX       (f(t,X) derivative; f(t,X,True) = (f t X, getdt t X))
-     solver    : O V vadd smul  F userdt dtmin dtmax   (the user's getdXdt and getDt, the step bounds; the
+     solver    : O V vadd smul  F userdt dtminfrac dtmaxfrac dtmin dtmax   (the user's getdXdt and getDt; the
+                 attributes dtmin / dtmax (fractions of the span) and _dtmin / _dtmax (absolute bounds); the
                  in-place hook correctdXdt is assumed to be the default no-op) *)
 From Coq Require Import ZArith.
 Require Import Kawin.Common.Ops.
